@@ -88,6 +88,7 @@ pub fn add_sequences<V: Full>(prop: &mut Property, base: &str, picks: Vec<u64>) 
                 let (run, picks, invalid) = (run.clone(), picks.clone(), invalid.clone());
                 let h = std::thread::spawn(move || {
                     crate::engine::install_panic_hook_thread();
+                    crate::ops::set_clone_keys(second % 2 == 1);
                     let mut o = Outcome::new();
                     o.evals = 0;
                     o.nontrivial = 0;
